@@ -698,7 +698,9 @@ fn run_case1(case: &Value, out: &mut dyn Write, forced: Option<(i32, i32, f64)>)
                     tk.sort();
                     let mut fk: Vec<&String> = f.tkeys.iter().filter(|k| k.ends_with(".f_match")).collect();
                     fk.sort();
-                    ev["out"] = json!({"ok": true, "crs": crs, "srvs": srvs, "srcs": srcs, "acs": acs, "misc": misc, "tagged": tagged,
+                    let mut meta: Vec<Value> = ep.components.meta.iter().map(|m| json!([m.key, m.value])).collect();
+                    meta.sort_by_key(|m| m.to_string());
+                    ev["out"] = json!({"ok": true, "crs": crs, "srvs": srvs, "srcs": srcs, "acs": acs, "misc": misc, "tagged": tagged, "meta": meta,
                                        "balkeys": balkeys, "m2keys": m2keys, "tkeys": tk, "fkeys": fk, "flat": f.m});
                     if case.get("render").and_then(|x| x.as_bool()).unwrap_or(false) {
                         ev["doc"] = render_docs(&ep, p, pm);
@@ -936,7 +938,31 @@ fn main() {
                         ev["mag"] = json!((s * 10f64.powi(p)).ceil() as i64);
                         ev["magm"] = json!((s / (ep.arearef as f64).max(1e-9) * 10f64.powi(pm)).ceil() as i64);
                         ev["comps"] = Value::Array(ac.iter().map(|c| c.to_json(2)).collect());
-                        ev["out"] = json!({"ok": true, "fkeys": fk, "flat": f.m});
+                        // structure of the result, and the parameters of the run as the caller states them, so that
+                        // the history specifications (k_exp, area ...) can judge runs of the real program too
+                        let mut crs: Vec<String> = ep.balance_cr.keys().map(|c| c.to_string()).collect();
+                        crs.sort();
+                        let mut srvs = serde_json::Map::new();
+                        let mut srcs = serde_json::Map::new();
+                        for (cr, b) in &ep.balance_cr {
+                            let mut a: Vec<String> = b.used.epus_by_srv_an.keys().map(|x| x.to_string()).collect();
+                            a.sort();
+                            srvs.insert(cr.to_string(), json!(a));
+                            let mut a: Vec<String> = b.prod.by_src_an.keys().map(|x| x.to_string()).collect();
+                            a.sort();
+                            srcs.insert(cr.to_string(), json!(a));
+                        }
+                        for k in ["kexp", "area", "lm"] {
+                            if let Some(v) = c.get(k) {
+                                ev[k] = v.clone();
+                            }
+                        }
+                        let balkeys: Vec<&str> = f.m.keys().filter_map(|k| k.strip_prefix("bal.")).collect();
+                        let m2keys: Vec<&str> = f.m.keys().filter_map(|k| k.strip_prefix("m2.")).collect();
+                        let mut tk: Vec<&String> = f.tkeys.iter().filter(|k| !k.ends_with(".f_match")).collect();
+                        tk.sort();
+                        ev["out"] = json!({"ok": true, "fkeys": fk, "flat": f.m, "crs": crs, "srvs": srvs, "srcs": srcs,
+                                           "balkeys": balkeys, "m2keys": m2keys, "tkeys": tk});
                     }
                     (code, _) => {
                         ev["out"] = json!({"ok": false, "stage": "cli", "err": format!("Exit{}", code.unwrap_or(-1))});
